@@ -2376,7 +2376,26 @@ pub fn gen_case(rng: &mut Rng, tier: &str, profile: &str, stats: &mut Stats) -> 
         let x = rng.range(1, n);
         let y = other(rng, x);
         let m = rng.range(34, 44);
-        if rng.chance(1, 2) {
+        if profile == "C20" && rng.chance(1, 3) {
+            // variant: a peer whose request ids do not change (a constant, a small counter that wraps):
+            // twenty requests in a row carry the same id, each is answered before the next one comes
+            stats.bump("gen.cases.directed-constant-request-id");
+            let m = 20;
+            ops.push(format!("hreq {} {} enr {} 1", x, y, rid));
+            ops.push("hdel next".into());
+            ops.push(format!("hwru {} next known", y));
+            for _ in 0..2 { ops.push("hdel next".into()); }
+            ops.push(format!("hresp {} next auto", y));
+            ops.push("hdel next".into());
+            for _ in 0..m {
+                ops.push(format!("hreq {} {} enr {} 4", x, y, rid));
+                ops.push("hdel next".into());
+                ops.push(format!("hresp {} next auto", y));
+                ops.push("hdel next".into());
+            }
+            rid += 1;
+            emitted += 2 * m + 5;
+        } else if rng.chance(1, 2) {
             // variant: the session exists already; the requests arrive one by one and are held by the
             // peer's application, which then answers all of them at once
             ops.push(format!("hreq {} {} enr {} 1", x, y, rid)); rid += 1;
